@@ -19,7 +19,6 @@ broadcast use {vstd::std_specs::hash::group_hash_axioms, axh::axiom_uuid_key_mod
 //@include lemmas/history.rs
 // ---- functions these properties depend on that are NOT verified (outside the verifier's reach): hashed; a change -> UNDECIDED
 //@watch C01 C02 C04 C12 C14 C15 :: src/taskdb/mod.rs :: impl<S: Storage> TaskDb<S> :: fn sync
-//@watch C01 C02 C04 C15 :: src/replica.rs :: impl<S: Storage> Replica<S> :: fn sync
 //@watch C12 :: src/taskdb/snapshot.rs :: impl SnapshotTasks :: fn encode
 //@watch C12 :: src/taskdb/snapshot.rs :: impl SnapshotTasks :: fn decode
 //@watch C12 :: src/taskdb/snapshot.rs :: impl Serialize for SnapshotTasks
